@@ -131,6 +131,13 @@ _add("C07", _glob("dead_all_histories", "dead_every_boundary", "c07_no_dead_full
 _add("C08", _glob("c08_logoutUser", "c08_refresh", "c08_refresh_users", "c08_missing_skipped", "c08_login", "c08_login_HL", "c08_logout",
                   "c08_after_logoutUser", "logoutUser_delta", "refreshUser_delta", "hlogin_delta", "hlogout_delta"))
 _add("C02", _glob("c07_no_resurrection", "c01_isolation"))
+# histories WITH store faults, every oracle (Proofs/Global/Faulty11*)
+_add("C11", _glob("sinv_step", "sinv_all_histories", "sinv_every_boundary", "store_follows_events", "step_store_follows_events",
+                  "hist_store_follows_events", "c11_failed_call_changes_nothing", "start_failed_load_quiet", "start_del_cases",
+                  "c11_no_silent_loss", "c11_untouched", "c11_del_only_by_invalidation", "c11_failed_load_global", "step_eq_clear",
+                  "step_inv_of_not_faulted", "cohf_all_histories_partial", "coh_lost_only_by_shown_fault", "wf_fails_under_faults"))
+_add("C09", _glob("c09_ack_saved_global", "c09_created_saved_global", "hRun_ack_saved", "createNew_ack_saved", "sinv_all_histories",
+                  "step_store_follows_events", "step_store_frozen", "cohf_all_histories_partial", "c09_untainted_crash_equiv"))
 _add("C09", _glob("own_all_histories"))
 
 
